@@ -1,0 +1,37 @@
+//! Verification hooks for the multiplexer (compiled only with `--cfg era_consensus_verif`).
+#![allow(missing_docs, unreachable_pub, clippy::missing_docs_in_private_items)]
+use zksync_protobuf::ProtoFmt;
+
+use super::handshake;
+use crate::verif::WireType;
+
+/// The mux handshake has no `PartialEq`; compared field by field.
+fn handshake_wire(samples: Vec<handshake::Handshake>) -> WireType {
+    use zksync_protobuf::build::prost_reflect::ReflectMessage as _;
+    type T = handshake::Handshake;
+    fn eq(a: &T, b: &T) -> bool {
+        a.accept_max_streams == b.accept_max_streams && a.connect_max_streams == b.connect_max_streams
+    }
+    WireType {
+        name: "mux::Handshake",
+        descriptor: <T as ProtoFmt>::Proto::default().descriptor(),
+        decode_encode: Box::new(|b| {
+            let v: T = zksync_protobuf::decode(b)?;
+            let e = zksync_protobuf::encode(&v);
+            let same = zksync_protobuf::decode::<T>(&e).map(|v2| eq(&v2, &v)).unwrap_or(false);
+            Ok((e, same))
+        }),
+        equal: Box::new(|a, b| Ok(eq(&zksync_protobuf::decode::<T>(a)?, &zksync_protobuf::decode::<T>(b)?))),
+        samples: samples.iter().map(zksync_protobuf::encode).collect(),
+    }
+}
+
+
+pub(crate) fn wire_types() -> Vec<WireType> {
+    let caps = |x: &[(u64, u32)]| x.iter().copied().collect::<std::collections::HashMap<_, _>>();
+    vec![handshake_wire(vec![
+        handshake::Handshake { accept_max_streams: caps(&[]), connect_max_streams: caps(&[]) },
+        handshake::Handshake { accept_max_streams: caps(&[(0, 1)]), connect_max_streams: caps(&[(1, 2)]) },
+        handshake::Handshake { accept_max_streams: caps(&[(0, 1), (1, 3), (2, 5), (7, u32::MAX)]), connect_max_streams: caps(&[(3, 0), (4, 1), (5, 2)]) },
+    ])]
+}
